@@ -222,6 +222,12 @@ def run_check(modname, tier, seed, argv=()):
                 time.sleep(0.02)
             if not inflight and ext_iter is None:
                 break
+            if time.time() > hard + 60:
+                # a worker process died (its task never completes) or ignored its deadline
+                lost = len(inflight)
+                pool.terminate()
+                print(f"INCONCLUSIVE property={prop}: {lost} instance(s) never finished (worker crash or hang)")
+                return 2
     return finish(mod, prop, tier, seed, t0, insts, results, skipped, known, pre)
 
 
